@@ -260,11 +260,13 @@ Section WithComparer.
         | _ => None
         end
     | ARMems r =>
+        (* a snapshot's next read captures afresh, whatever the previous read got as far as *)
         let x := d_rd st r in
         match r_ph x with
-        | PSeq | PVer => if r_reg x
-                         then Some (with_reader st r (set_mems x PMems (d_cur st) (d_frz st)) (d_snaps st) (d_rlog st))
-                         else None
+        | PSeq | PMems | PVer =>
+            if r_reg x
+            then Some (with_reader st r (set_mems x PMems (d_cur st) (d_frz st)) (d_snaps st) (d_rlog st))
+            else None
         | _ => None
         end
     | ARVersion r =>
@@ -280,6 +282,14 @@ Section WithComparer.
                   if opt_bytes_eqb a ans
                   then Some (with_reader st r x (d_snaps st) ((r, r_s x, r_h0 x, k, a) :: d_rlog st))
                   else None
+        | PMems =>
+            (* DB.get returns as soon as a buffer holds the key: the version is never taken *)
+            match cutget (d_hp st (r_m x)) (hpo (d_hp st) (r_f x)) [] k (r_s x) with
+            | Some e => if opt_bytes_eqb (res (Some e)) ans
+                        then Some (with_reader st r x (d_snaps st) ((r, r_s x, r_h0 x, k, res (Some e)) :: d_rlog st))
+                        else None
+            | None => None
+            end
         | _ => None
         end
     | ARRelease r =>
@@ -288,6 +298,9 @@ Section WithComparer.
         | PSeq | PVer => if r_reg x
                          then Some (with_reader st r (set_reg x false) (unregister r (d_snaps st)) (d_rlog st))
                          else None
+        | PMems =>
+            (* Get answered from a buffer and releases: the capture is finished with *)
+            Some (with_reader st r (set_reg (set_phase x PSeq) false) (unregister r (d_snaps st)) (d_rlog st))
         | _ => None
         end
     | ARDone r =>
